@@ -79,8 +79,9 @@ PROPS = {
                      "create_pool_conserves_partial", "config_conserves_partial", "bank_send_effect",
                      "MantraDex.C01Sys.pm_inv_step_partial", "MantraDex.C01Sys.pm_custody_reachable_partial", "MantraDex.C01Sys.pm_inv_init",
                      "MantraDex.C01Sys.pm_inv_step", "MantraDex.C01Sys.pm_custody_reachable",
-                     "MantraDex.C02Sys.lp_inv_step", "MantraDex.C02Sys.lp_inv_reachable", "MantraDex.C02Sys.pm_lp_balance_step_partial"],
-        "extra_modules": ["MantraDex.Properties.C01Sys", "MantraDex.Properties.C02Sys"],
+                     "MantraDex.C02Sys.lp_inv_step", "MantraDex.C02Sys.lp_inv_reachable", "MantraDex.C02Sys.pm_lp_balance_step_partial",
+                     "MantraDex.C01All.all_inv_step", "MantraDex.C01All.all_inv_reachable", "MantraDex.C01All.pm_custody_all_reachable", "MantraDex.C01All.all_inv_init"],
+        "extra_modules": ["MantraDex.Properties.C01Sys", "MantraDex.Properties.C02Sys", "MantraDex.Properties.C01All"],
         "streams": {"pm_hist": (80, 4000), "faults": (30, 1500)},
         "what": "handler-level conservation law of the pool manager for every non-LP token: reserves' + outflow(messages) = reserves + inflow(funds) "
                 "for swap, routed swap (any length), withdraw, multi-asset deposit, pool creation (keeps nothing), config/ownership; the single-asset "
@@ -92,7 +93,9 @@ PROPS = {
                 "reachable state (pm_inv_step, pm_custody_reachable, pm_inv_init; the _partial versions are the intermediate result). LP CLAUSE (C02Sys): the pool manager "
                 "holds the locked minimum of every funded pool in every reachable state (lp_inv_step / lp_inv_reachable), and a contract call changes its balance of a pool's LP token "
                 "only by minting that minimum at the first deposit (pm_lp_balance_step_partial: unless the pool manager is itself named as LP receiver, fee collector or farm owner - "
-                "three proved-necessary exclusions with evaluated counterexamples)",
+                "three proved-necessary exclusions with evaluated counterexamples). FULL STRENGTH, EVERY TOKEN (C01All): in every state reachable by account-signed transactions, for EVERY "
+                "denom - LP tokens of the pool manager, pools listing another (or their own) pool's LP token as an asset, fee denoms that are LP tokens - recorded reserves + the locked minimum "
+                "liquidity of the funded pool whose LP token it is <= the pool manager's balance (all_inv_step, pm_custody_all_reachable, all_inv_init); no restriction on the pools' assets",
         "assumptions": ["the lift through the runtime to whole transactions is proved (C01Sys) for every transaction kind, for non-factory denoms (LP tokens "
                         "are factory denoms), for the runtime/bank MODEL (trusted, exercised by the streams), account-signed transactions and a pool creation "
                         "fee <= u128::MAX/2; on the implementation it is validated by the custody + excess monitors on every step of the history and fault streams",
@@ -280,8 +283,9 @@ PROPS = {
                      "MantraDex.C07Split.epoch_shares_sum_le_rate", "MantraDex.C07Split.span_rewards_sum_le",
                      "MantraDex.C06Sys.claim_pays_entries", "MantraDex.C06Sys.entry_shape", "MantraDex.C06Sys.epoch_paid_le_emission",
                      "MantraDex.C06Sys.no_epoch_paid_twice_partial", "MantraDex.C06Sys.no_epoch_paid_twice_nonzero",
-                     "MantraDex.C06Sys.no_epoch_paid_twice_default_until"],
-        "extra_modules": ["MantraDex.Properties.C07Split", "MantraDex.Properties.C06Sys"],
+                     "MantraDex.C06Sys.no_epoch_paid_twice_default_until",
+                     "MantraDex.C07Sys.claimed_eq_ledger", "MantraDex.C07Sys.claimed_le_emitted", "MantraDex.C07Sys.claim_never_exhausted"],
+        "extra_modules": ["MantraDex.Properties.C07Split", "MantraDex.Properties.C06Sys", "MantraDex.Properties.C07Sys"],
         "streams": {"fm_hist": (80, 4000)},
         "what": "END TO END OVER WHOLE HISTORIES (C06Sys): a ledger of every reward payment is derived from the history (the per-epoch terms of every ACCEPTED "
                 "top-level Claim; the coins a claim sends are exactly the sum of its entries, claim_pays_entries); in every history of account-signed transactions from a "
@@ -290,7 +294,9 @@ PROPS = {
                 "in effect / total weight in effect) with user weight <= total != 0 (entry_shape); no (user, LP token, farm, epoch) receives a non-zero amount twice "
                 "(no_epoch_paid_twice_partial / _nonzero; the version counting zero-weight entries is refuted by an evaluated 15-transaction counterexample: a backdated claim after a "
                 "full exit rewinds the cursor and the next claim re-lists old epochs with weight 0 - nothing is paid twice - and holds when every claim uses the default until, "
-                "no_epoch_paid_twice_default_until). Handler level: every reward term is floor(rate*user_weight/total_weight) for an epoch inside the farm's life and strictly after the claim cursor, "
+                "no_epoch_paid_twice_default_until). A farm's claimed_amount equals the sum of the ledger entries it paid since its creation (claimed_eq_ledger), hence cumulative payouts "
+                "<= emission rate x farm epochs that have begun, and rate x (end - start) <= funded amount (claimed_le_emitted); NO CLAIM IS EVER REFUSED FOR LACK OF FARM FUNDS in a reachable "
+                "state, whatever others claimed before - no claim by one user can make another user's rightful claim fail (claim_never_exhausted). Handler level: every reward term is floor(rate*user_weight/total_weight) for an epoch inside the farm's life and strictly after the claim cursor, "
                 "at most one term per epoch; <= the epoch's emission when user weight <= total; the cursor moves to until (<= current epoch), "
                 "re-claiming pays nothing and earlier untils are refused (no epoch paid twice); claimed_amount never exceeds the funded amount; "
                 "weight changes are recorded for epoch+1 only. End-to-end bound over whole histories: ledger monitor monClaim on every claim"
@@ -303,14 +309,19 @@ PROPS = {
         "theorems": ["histSet_sorted", "histGet_histSet", "weightAt_histSet_before", "address_scan_eq_weightAt", "contract_scan_eq_weightAt",
                      "sync_preserves_weightAt", "farm_terms_sum_eq_ledger", "epoch_share_floor", "query_eq_claim_single_lp",
                      "MantraDex.C07Split.spanReward_split", "MantraDex.C07Split.claim_split_total", "MantraDex.C07Split.claim_split_state",
-                     "MantraDex.C06Sys.claim_pays_entries", "MantraDex.C06Sys.entry_shape"],
-        "extra_modules": ["MantraDex.Properties.C07Split", "MantraDex.Properties.C06Sys"],
+                     "MantraDex.C06Sys.claim_pays_entries", "MantraDex.C06Sys.entry_shape",
+                     "MantraDex.C07Sys.owed_frozen_partial", "MantraDex.C07Sys.claim_never_exhausted", "MantraDex.C07Sys.claimed_eq_ledger"],
+        "extra_modules": ["MantraDex.Properties.C07Split", "MantraDex.Properties.C06Sys", "MantraDex.Properties.C07Sys"],
         "streams": {"fm_hist": (80, 4000)},
         "also_tags": ["C06-overpaid"],   # C07 says "never more": the ledger monitor's over-payment tag decides C07 as well
         "what": "refinement core: the user scan and the total-weight scan of the compacted history compute the ledger's weight in effect (Spec.weightAt); "
                 "claim-time compaction preserves the weight in effect from the claimed epoch on (schedule independence); a farm's terms add up to "
                 "the ledger entitlement Spec.spanReward; each payment is the floor of the exact share; Rewards query = Claim payout (single LP token)"
-                "; end-to-end schedule independence of Claim (one LP token): claim up to a then up to b pays per denom exactly what a single claim up to b pays, and leaves the same cursor, the same claimed amounts and the same weights in effect (C07Split.claim_split_total, claim_split_state, spanReward_split)",
+                "; end-to-end schedule independence of Claim (one LP token): claim up to a then up to b pays per denom exactly what a single claim up to b pays, and leaves the same cursor, the same claimed amounts and the same weights in effect (C07Split.claim_split_total, claim_split_state, spanReward_split)"
+                "; ACROSS INTERLEAVED OPERATIONS OF EVERYBODY ELSE, over whole histories (C07Sys.owed_frozen_partial): while the paying farm exists, every non-zero entry of a user's pending claim "
+                "(LP token, farm, epoch, user weight, total weight, reward) is still there, unchanged, after ANY transaction signed by somebody else - other users' opens, closes, claims in any "
+                "split, farm creations and expansions, time - so what a user is owed for an epoch that has begun depends on nothing that happens afterwards; with claim splitting this is schedule "
+                "independence (the only added hypothesis rules out a u128 overflow in the recomputation, reachable in the model only with farm budgets above 2^128: evaluated counterexample)",
         "assumptions": ["schedule independence is proved for splitting one claim into two (hence, by iteration, into any number) for users with one LP token and "
                         "no other operation in between; across interleaved operations of other users it is validated per generated claim by the independent "
                         "ledger monitor; query=claim proved for users with one LP token"],
